@@ -6,13 +6,15 @@
 #define VERIF_VECMODEL_FILL_H_
 #include <vector>
 #include "verif.h"
-template <>
-inline void std::vector<int>::_M_fill_insert(iterator pos, size_type n, const int &x) {
-  verif_assert(pos.base() == this->_M_impl._M_finish, "vector model: insertion point is end()");
-  verif_assert((size_t)(this->_M_impl._M_end_of_storage - this->_M_impl._M_finish) >= n,
-               "vector model: the reserved capacity suffices");
-  const int v = x;
-  for (size_type i = 0; i < n; ++i) this->_M_impl._M_finish[i] = v;
-  this->_M_impl._M_finish += n;
-}
+#define VERIF_VEC_FILL_MODEL(T)                                                                              \
+  template <>                                                                                                \
+  inline void std::vector<T>::_M_fill_insert(iterator pos, size_type n, const T &x) {                        \
+    verif_assert(pos.base() == this->_M_impl._M_finish, "vector model: insertion point is end()");         \
+    verif_assert((size_t)(this->_M_impl._M_end_of_storage - this->_M_impl._M_finish) >= n,                   \
+                 "vector model: the reserved capacity suffices");                                          \
+    const T v = x;                                                                                           \
+    for (size_type i = 0; i < n; ++i) this->_M_impl._M_finish[i] = v;                                        \
+    this->_M_impl._M_finish += n;                                                                            \
+  }
+VERIF_VEC_FILL_MODEL(int)
 #endif
